@@ -76,6 +76,12 @@ func runCase(line, obsPath string) string {
 	cmd.Stdout = &stdout
 	cmd.Stderr = &stderr
 	cmd.Env = append(os.Environ(), "GORACE=halt_on_error=0 history_size=3", hx.ChildEnv())
+	if os.Getenv("GOMAXPROCS") == "" && len(f) > 5 {
+		// vary the number of OS threads running goroutines over the scenarios (2, 4, all processors)
+		if sd, err := strconv.ParseUint(f[5], 10, 64); err == nil && sd%3 != 0 {
+			cmd.Env = append(cmd.Env, fmt.Sprintf("GOMAXPROCS=%d", 2*(sd%3)))
+		}
+	}
 	done := make(chan error, 1)
 	if err := cmd.Start(); err != nil {
 		return id + " err cannot-start-subprocess"
@@ -124,15 +130,21 @@ type plan struct {
 var plans = []plan{
 	{"sm4_shared", []int{2, 8, 32}, 200, 2000, []int{2, 3, 8, 16, 32}},
 	{"sm4_first", []int{2, 8, 32}, 400, 4000, []int{2, 3, 8, 16, 32}},
+	{"sm4_iv_readers", []int{2, 16}, 60, 300, []int{2, 8, 32}},
+	{"sm4_iv_set", []int{2, 8, 32}, 200, 1000, []int{2, 3, 8, 16, 32}},
+	{"sm4_gcm", []int{2, 16}, 8, 30, []int{2, 8, 32}},
 	{"curve_first", []int{2, 32}, 2, 4, []int{2, 4, 8, 16, 32}},
 	{"curve_first_mixed", []int{8, 32}, 1, 2, []int{2, 8, 16, 32}},
 	{"sm2_ops", []int{2, 8, 32}, 3, 12, []int{2, 4, 8, 16, 32}},
 	{"sm3_hash", []int{2, 32}, 40, 400, []int{2, 8, 32}},
 	{"x509_parse", []int{2, 8, 32}, 3, 12, []int{2, 8, 16, 32}},
 	{"certpool_verify", []int{2, 8, 32}, 4, 20, []int{2, 8, 16, 32}},
-	{"hs_gm", []int{2, 8}, 3, 8, []int{2, 8, 16, 32}},
-	{"hs_tls", []int{2, 8}, 3, 8, []int{2, 8, 16, 32}},
-	{"hs_auto", []int{4, 16}, 3, 8, []int{2, 8, 16, 32}},
+	{"pkcs7_cea", []int{2, 8}, 3, 10, []int{2, 8, 32}},
+	{"sm2_keyexchange", []int{2, 16}, 2, 6, []int{2, 8, 32}},
+	{"pkcs12_codec", []int{2, 16}, 3, 8, []int{2, 8, 32}},
+	{"hs_gm", []int{2, 8}, 5, 8, []int{2, 8, 16, 32}},
+	{"hs_tls", []int{2, 8}, 5, 8, []int{2, 8, 16, 32}},
+	{"hs_auto", []int{4, 16}, 4, 8, []int{2, 8, 16, 32}},
 	{"conn_rwc_gm", []int{2, 8, 32}, 20, 60, []int{2, 4, 8, 16, 32}},
 	{"conn_rwc_tls", []int{2, 8, 32}, 20, 60, []int{2, 4, 8, 16, 32}},
 	{"conn_alert_gm", []int{2, 8}, 1, 3, []int{2, 3, 8, 16}},
